@@ -101,6 +101,26 @@ add('C20', 'model_checking',
     'DESIGN.md 3 C20', 'Oracle ref/bloom.py (MurmurHash3 validated on the repository\'s vectors). State dedup is sound: a filter has no other state.',
     'explicit-state breadth-first search over the real transition function with history replay, reference-model agreement in every state')
 
+add('C13', 'exploration',
+    'Complete products: 16 secrets (1, 2, n-1, n-2, leading zeros, trailing 01 ...) x compression x 4 chains for derivation and WIF '
+    'round trip / cross-chain refusal; 8 (16) secrets x 8 digests (incl. 0, ff.., n, n+-1) x 8 harness-owned nonces (k=1,2,n-1, '
+    'r with 31 bytes, r>=2^255, high S before normalisation, 31-byte s) + unowned draws for signing (strict DER, low S, reference '
+    'verification equation, byte-equality with the deterministic result); low-S normalisation grid; verification table over 12 '
+    'signature classes x compressed/uncompressed/hybrid keys; public-key validity grid over every prefix byte x {33,65} bytes x '
+    'coordinate classes.',
+    'DESIGN.md 3 C13', 'Oracle ref/secp256k1.py (group-law self-tests, cross-checked against OpenSSL on oracle-made signatures). The ECDSA nonce is '
+    'owned by proxying bitcoin.core.key._ssl (ECDSA_sign -> ECDSA_sign_ex); OpenSSL arithmetic itself is trusted.',
+    'bounded exhaustive enumeration (complete products, nonce as enumerated environment answer) against a reference model')
+
+add('C14', 'exploration',
+    'Complete product: 6 (16) keys x both compressions x 19 messages (0..65536 bytes across the CompactSize boundaries, multi-byte '
+    'UTF-8) x 5 owned nonces + 1 unowned draw (x 4 chains for k=1): 65-byte signature, header byte, reference public-key recovery '
+    '= signer key, deterministic (r, low s), digest = sha256d(varstr(magic)||varstr(utf-8)), VerifyMessage true for the own P2PKH '
+    'address in three forms and false for the other compression, P2SH of the same hash, two other keys and 7 message '
+    'perturbations; recover_compact against the reference for every header byte 27..34 incl. recovery ids 2/3.',
+    'DESIGN.md 3 C14', 'Oracle ref/secp256k1.py + ref/base58.py + hashlib; nonce owned as in C13.',
+    'bounded exhaustive enumeration (complete product with full negative table) against a reference model')
+
 NOT_YET = 'check not yet built in this revision of /verif (planned, see DESIGN.md section 3)'
 
 
